@@ -355,6 +355,12 @@ def battery(check, prog, targets, jobs=16, limit_per_op=25):
         killed_examples=[(r[2], r[3][:2]) for r in killed][:25],
         false_alarm_examples=[(r[1], r[2], r[3][:2]) for r in false_alarms][:20],
         benign_undecided_examples=[(r[1], r[2], r[5]) for r in benign_err][:20])
+    dump = os.environ.get('HPSTATIC_BATTERY_DUMP')
+    if dump:
+        import json
+        with open(dump, 'w') as f:
+            json.dump([(r[0], r[1], r[2], [list(v) for v in r[3]], r[4]) for r in results],
+                      f, indent=0)
     print('  mutation battery: %d mutants: %d killed, %d undecided, %d survived; '
           '%d benign variants: %d silent, %d false alarms, %d undecided' % (
               len(killed) + len(errored) + len(survived), len(killed), len(errored),
